@@ -49,6 +49,8 @@ type tr struct {
 	constDefs []string
 	constDone map[string]bool
 	tparams   map[string]bool
+	ifaces    map[string]*ast.InterfaceType
+	named     map[string]ast.Expr // type X <not a struct, not an interface>
 }
 
 // ---------------------------------------------------------------- types (a type is its Gallina text)
@@ -89,16 +91,15 @@ func (t *tr) typ(e ast.Expr) string {
 		switch x.Name {
 		case "bool", "string":
 			return x.Name
-		case "int", "int8", "int16", "int32", "int64", "uint", "uint8", "uint16", "uint32", "uint64":
+		case "int", "int8", "int16", "int32", "int64", "uint", "uint8", "uint16", "uint32", "uint64", "byte":
 			return "Z" // mathematical integers: wrap-around is not modelled
 		case "error":
 			return "option " + t.needOpaque("error_T")
 		}
-		if _, ok := t.structs[x.Name]; ok {
-			t.record(x.Name)
-			return x.Name
+		if ty := t.namedType(x.Name); ty != "" {
+			return ty
 		}
-		if (x.Obj != nil && x.Obj.Kind == ast.Typ) || t.tparams[x.Name] { // type parameter or other named type of the file: opaque
+		if (x.Obj != nil && x.Obj.Kind == ast.Typ) || t.tparams[x.Name] { // type parameter: opaque
 			return t.needOpaque(x.Name)
 		}
 	case *ast.IndexExpr: // S[T]: the record of S (type parameters are opaque Section types)
@@ -120,7 +121,10 @@ func (t *tr) typ(e ast.Expr) string {
 				return "Z"
 			case "sync.Mutex", "sync.RWMutex", "sync.Cond":
 				return ""
-			default:
+			default: // described in the unit's hints, or opaque
+				if ty := t.namedType(p.Name + "_" + x.Sel.Name); ty != "" {
+					return ty
+				}
 				return t.needOpaque(p.Name + "_" + x.Sel.Name)
 			}
 		}
@@ -135,13 +139,31 @@ func (t *tr) typ(e ast.Expr) string {
 			return "list " + paren(el)
 		}
 	case *ast.MapType:
-		if k, ok := x.Key.(*ast.Ident); ok && k.Name == "string" {
+		if t.typ(x.Key) == "string" {
 			if el := t.typ(x.Value); el != "" {
 				return "alist " + paren(el)
 			}
 		}
 	}
 	t.fail(e, "type %s", t.src(e))
+	return ""
+}
+
+// namedType: a declared type name -> record (struct), opaque type (interface, channel) or its underlying type; "" if unknown.
+func (t *tr) namedType(name string) string {
+	if _, ok := t.structs[name]; ok {
+		t.record(name)
+		return name
+	}
+	if _, ok := t.ifaces[name]; ok {
+		return t.needOpaque(name)
+	}
+	if u, ok := t.named[name]; ok {
+		if _, isChan := u.(*ast.ChanType); isChan {
+			return t.needOpaque(name)
+		}
+		return t.typ(u)
+	}
 	return ""
 }
 
@@ -217,6 +239,13 @@ func (t *tr) svar(name, ty string, at ast.Node) string {
 
 func (t *tr) newFn(key string, d *ast.FuncDecl) *fn {
 	f := &fn{key: key, coq: strings.ReplaceAll(key, ".", "_"), d: d}
+	if d.Type.TypeParams != nil {
+		for _, p := range d.Type.TypeParams.List {
+			for _, id := range p.Names {
+				t.tparams[id.Name] = true
+			}
+		}
+	}
 	if d.Recv != nil {
 		r := d.Recv.List[0]
 		ast.Inspect(r.Type, func(n ast.Node) bool { // func (r *S[T]) ...: T is a type parameter
@@ -258,6 +287,19 @@ func (t *tr) newFn(key string, d *ast.FuncDecl) *fn {
 				f.results = append(f.results, t.typ(r.Type))
 			}
 		}
+		ast.Inspect(d.Body, func(n ast.Node) bool { // a struct pointer result for which `return nil` occurs is an option
+			if _, lit := n.(*ast.FuncLit); lit {
+				return false
+			}
+			if rs, ok := n.(*ast.ReturnStmt); ok && len(rs.Results) == len(f.results) {
+				for i, e := range rs.Results {
+					if isNil(e) && t.recs[f.results[i]] != nil {
+						f.results[i] = "option " + f.results[i]
+					}
+				}
+			}
+			return true
+		})
 	}
 	return f
 }
@@ -321,6 +363,15 @@ func (t *tr) shapes() {
 							f.mut = true
 						}
 					}
+					if len(s.Rhs) == 1 {
+						if c, ok := s.Rhs[0].(*ast.CallExpr); ok && t.isAction(c, f.recv) {
+							f.eff = true
+						}
+					}
+				case *ast.DeferStmt:
+					if !isLockCall(s.Call) && !t.isDropped(s.Call) {
+						f.eff = true
+					}
 				case *ast.IncDecStmt:
 					if onRecv(s.X) {
 						f.mut = true
@@ -333,7 +384,7 @@ func (t *tr) shapes() {
 					}
 				case *ast.ExprStmt:
 					c, ok := s.X.(*ast.CallExpr)
-					if !ok || isLockCall(c) {
+					if !ok || isLockCall(c) || t.isDropped(c) {
 						return true
 					}
 					if id, ok := c.Fun.(*ast.Ident); ok && id.Name == "panic" {
@@ -411,7 +462,7 @@ type fctx struct {
 
 var reserved = strings.Fields(`as at cofix else end exists exists2 fix for forall fun if IF in let match mod Prop return
   Set then Type using where with by effs_ lookup update isSome odef zlen slice_to slice_from Ret Panic app negb true false
-  Some None tt fst snd effs_1 length Z bool string list option alist unit nil cons res effect andb orb`)
+  Some None tt fst snd effs_1 slen nth length Z bool string list option alist unit nil cons res effect andb orb`)
 
 func (c *fctx) fresh(base string) string {
 	for _, ch := range base {
@@ -552,12 +603,18 @@ func (c *fctx) stmt(s ast.Stmt, k func() string) string {
 		return k()
 	case *ast.BlockStmt:
 		return c.block(s.List, k)
-	case *ast.DeferStmt:
-		if isLockCall(s.Call) {
+	case *ast.DeferStmt: // recorded where it is registered (its arguments are evaluated there), named defer_<callee>
+		if isLockCall(s.Call) || t.isDropped(s.Call) {
 			return k()
+		}
+		if g, _ := t.callee(s.Call, c.typeOfIdent); g == nil {
+			return c.effectStmt(s.Call, "defer_", k)
 		}
 	case *ast.ExprStmt:
 		if call, ok := s.X.(*ast.CallExpr); ok {
+			if t.isDropped(call) {
+				return k()
+			}
 			return c.callStmt(call, nil, k)
 		}
 	case *ast.IncDecStmt:
@@ -581,6 +638,10 @@ func (c *fctx) stmt(s ast.Stmt, k func() string) string {
 					ty = t.typ(vs.Type)
 				}
 				v := ""
+				if _, ptr := vs.Type.(*ast.StarExpr); ptr && i >= len(vs.Values) && t.recs[ty] != nil {
+					c.declare(id, ty) // a nil pointer: no value until it is assigned (a use before that does not compile in Coq)
+					continue
+				}
 				if i < len(vs.Values) {
 					v, ty = c.expr(vs.Values[i], ty)
 				} else if ty != "" {
@@ -615,7 +676,10 @@ func (c *fctx) stmt(s ast.Stmt, k func() string) string {
 		}
 		var vals []string
 		for i, r := range s.Results {
-			v, _ := c.expr(r, c.f.results[i])
+			v, ty := c.expr(r, c.f.results[i])
+			if c.f.results[i] == "option "+paren(ty) { // a *S result that may be nil
+				v = "Some " + paren(v)
+			}
 			vals = append(vals, v)
 		}
 		return c.ret(vals)
@@ -697,7 +761,7 @@ func (c *fctx) assign(l ast.Expr, v, ty string, define bool) string {
 			return ""
 		}
 		if define {
-			return "let " + c.declare(x, ty) + " := " + v + " in\n"
+			return "let " + c.declare(x, ty) + " : " + ty + " := " + v + " in\n"
 		}
 		delete(c.owned, x.Obj)
 		if n, ok := c.names[x.Obj]; ok && x.Obj != nil {
@@ -716,10 +780,14 @@ func (c *fctx) assign(l ast.Expr, v, ty string, define bool) string {
 		}
 	case *ast.IndexExpr: // m[k] = v
 		m, mt := c.expr(x.X, "")
-		_, isField := x.X.(*ast.SelectorExpr) // maps are references: only a map held in a field of the receiver may be assigned
-		if r := rootIdent(x.X); strings.HasPrefix(mt, "alist ") && isField && r != nil && r.Obj == c.f.recv {
+		_, isField := x.X.(*ast.SelectorExpr) // maps are references: only a map in a field of the receiver, or a local made here, may be assigned
+		if r := rootIdent(x.X); strings.HasPrefix(mt, "alist ") && r != nil && ((isField && r.Obj == c.f.recv) || (!isField && c.owned[r.Obj])) {
 			key, _ := c.expr(x.Index, "string")
-			return c.assign(x.X, "update "+paren(m)+" "+paren(key)+" "+paren(v), mt, false)
+			out := c.assign(x.X, "update "+paren(m)+" "+paren(key)+" "+paren(v), mt, false)
+			if r := rootIdent(x.X); !isField {
+				c.owned[r.Obj] = true
+			}
+			return out
 		}
 	}
 	t.fail(l, "assignment target %s", t.src(l))
@@ -761,6 +829,8 @@ func (c *fctx) assignStmt(s *ast.AssignStmt, k func() string) string {
 		if call, ok := s.Rhs[0].(*ast.CallExpr); ok {
 			if g, _ := t.callee(call, c.typeOfIdent); g != nil && !g.pure() {
 				return c.callStmt(call, s, k)
+			} else if _, lit := call.Fun.(*ast.FuncLit); g == nil && !lit && (len(s.Lhs) > 1 || c.isAction(call)) {
+				return c.foreignStmt(call, s, k)
 			}
 		}
 	}
@@ -770,7 +840,7 @@ func (c *fctx) assignStmt(s *ast.AssignStmt, k func() string) string {
 	if len(s.Lhs) == 1 {
 		v, ty := c.expr(s.Rhs[0], c.lhsType(s.Lhs[0], def))
 		out := c.assign(s.Lhs[0], v, ty, def)
-		if id, ok := s.Lhs[0].(*ast.Ident); ok && id.Obj != nil && isStructLit(s.Rhs[0]) {
+		if id, ok := s.Lhs[0].(*ast.Ident); ok && id.Obj != nil && isFresh(s.Rhs[0]) {
 			c.owned[id.Obj] = true
 		}
 		return out + k()
@@ -800,9 +870,14 @@ func (c *fctx) lhsType(l ast.Expr, def bool) string {
 	return ty
 }
 
-func isStructLit(e ast.Expr) bool {
+// isFresh: a struct literal, its address, or make(...): a value nothing else refers to.
+func isFresh(e ast.Expr) bool {
 	if u, ok := e.(*ast.UnaryExpr); ok && u.Op == token.AND {
 		e = u.X
+	}
+	if call, ok := e.(*ast.CallExpr); ok {
+		id, isId := call.Fun.(*ast.Ident)
+		return isId && id.Name == "make"
 	}
 	_, ok := e.(*ast.CompositeLit)
 	return ok
@@ -870,13 +945,16 @@ func (c *fctx) callStmt(call *ast.CallExpr, as *ast.AssignStmt, k func() string)
 		return "let '" + tuple(pat) + " := " + app + " in\n" + out + k()
 	}
 	if as != nil {
-		t.fail(as, "assignment %s", firstLine(t.src(as)))
+		return c.foreignStmt(call, as, k)
 	}
-	// effect: x.f.M(args) on a variable of record type is named f_M; builtin close(x) is close
-	name := ""
+	return c.effectStmt(call, "", k)
+}
+
+// effectName: x.f.M on a local of record type (the receiver) is f_M; pkgvar.f.M and pkg.F keep their root; close(x) is close.
+func (c *fctx) effectName(call *ast.CallExpr) (name string, recvArg ast.Expr) {
 	switch x := call.Fun.(type) {
 	case *ast.Ident:
-		name = x.Name
+		return x.Name, nil
 	case *ast.SelectorExpr:
 		parts := []string{x.Sel.Name}
 		e := x.X
@@ -888,15 +966,34 @@ func (c *fctx) callStmt(call *ast.CallExpr, as *ast.AssignStmt, k func() string)
 			}
 			break
 		}
-		if id, ok := e.(*ast.Ident); ok && (id.Obj == nil || t.recs[c.types[id.Obj]] != nil) && len(parts) >= 2 {
-			name = strings.Join(parts, "_")
+		if id, ok := e.(*ast.Ident); ok {
+			switch {
+			case id.Obj != nil && c.t.recs[c.types[id.Obj]] != nil && len(parts) >= 2:
+				return strings.Join(parts, "_"), nil
+			case id.Obj == nil || c.names[id.Obj] == "": // package or package-level variable
+				return id.Name + "_" + strings.Join(parts, "_"), nil
+			case len(parts) == 1: // v.M(args) on a local of an opaque type: <type>_M, the value is the first argument
+				if base := strings.TrimPrefix(c.types[id.Obj], "option "); c.t.isOpaque(base) {
+					return base + "_" + parts[0], id
+				}
+			}
 		}
 	}
-	if name == "" {
-		t.fail(call, "call statement %s", t.src(call))
-	}
+	c.t.fail(call, "call statement %s", c.t.src(call))
+	return "", nil
+}
+
+// effectStmt: a call made for its effect on something that is not represented: appended to the effect list.
+func (c *fctx) effectStmt(call *ast.CallExpr, prefix string, k func() string) string {
+	t := c.t
+	name, recvArg := c.effectName(call)
+	name = prefix + name
 	var args, tys []string
-	for _, a := range call.Args {
+	argExprs := call.Args
+	if recvArg != nil {
+		argExprs = append([]ast.Expr{recvArg}, argExprs...)
+	}
+	for _, a := range argExprs {
 		v, ty := c.expr(a, "")
 		args, tys = append(args, paren(v)), append(tys, ty)
 	}
@@ -908,6 +1005,46 @@ func (c *fctx) callStmt(call *ast.CallExpr, as *ast.AssignStmt, k func() string)
 		t.effs, t.effArgs[name] = append(t.effs, name), tys
 	}
 	return "let effs_ := app effs_ [" + strings.TrimSpace("E_"+name+" "+strings.Join(args, " ")) + "] in\n" + k()
+}
+
+// foreignStmt: lhs... := f(args) for an untranslated f (possibly several results); if the call goes through one
+// of the unit's `actions` fields it is also recorded in the effect list.
+func (c *fctx) foreignStmt(call *ast.CallExpr, as *ast.AssignStmt, k func() string) string {
+	t := c.t
+	def := as.Tok == token.DEFINE
+	want := ""
+	if len(as.Lhs) == 1 {
+		want = c.lhsType(as.Lhs[0], def)
+	}
+	code, res, _ := c.foreign(call, want)
+	if len(res) != len(as.Lhs) {
+		t.fail(as, "assignment %s (the call has %d results)", firstLine(t.src(as)), len(res))
+	}
+	out := ""
+	if c.isAction(call) {
+		out = c.effectStmt(call, "", func() string { return "" })
+	}
+	if len(res) == 1 {
+		return out + c.assign(as.Lhs[0], code, res[0], def) + k()
+	}
+	var pat []string
+	post := ""
+	for i, l := range as.Lhs {
+		id, ok := l.(*ast.Ident)
+		switch {
+		case ok && id.Name == "_":
+			pat = append(pat, "_")
+		case ok && def:
+			pat = append(pat, c.declare(id, res[i]))
+		case ok && c.names[id.Obj] != "":
+			pat = append(pat, c.names[id.Obj])
+		default: // a field: through a temporary
+			tmp := c.fresh("tmp_")
+			pat = append(pat, tmp)
+			post += c.assign(l, tmp, res[i], false)
+		}
+	}
+	return out + "let '" + tuple(pat) + " := " + code + " in\n" + post + k()
 }
 
 // callCode: application of listed function g (receiver variable rcv) to the arguments of call.
@@ -962,13 +1099,18 @@ func (c *fctx) rangeStmt(s *ast.RangeStmt, k func() string) string {
 		t.fail(s, "range variables")
 	}
 	// variables declared outside the loop and assigned inside it are carried through the iterations
-	var carried []string
+	var carried, carriedT []string
 	seen := map[string]bool{}
 	carry := func(e ast.Expr) {
-		if r := rootIdent(e); r != nil && r.Obj != nil && c.names[r.Obj] != "" && !seen[c.names[r.Obj]] {
-			seen[c.names[r.Obj]] = true
-			carried = append(carried, c.names[r.Obj])
+		r := rootIdent(e)
+		if r == nil || r.Obj == nil || c.names[r.Obj] == "" || seen[c.names[r.Obj]] {
+			return
 		}
+		if p := r.Obj.Pos(); p >= s.Body.Pos() && p <= s.Body.End() { // declared inside the body
+			return
+		}
+		seen[c.names[r.Obj]] = true
+		carried, carriedT = append(carried, c.names[r.Obj]), append(carriedT, c.types[r.Obj])
 	}
 	effs := false
 	keyUses, elemUses := 0, 0
@@ -1001,7 +1143,7 @@ func (c *fctx) rangeStmt(s *ast.RangeStmt, k func() string) string {
 		return true
 	})
 	if effs && c.f.eff {
-		carried = append(carried, "effs_")
+		carried, carriedT = append(carried, "effs_"), append(carriedT, "list effect")
 	}
 	if r := rootIdent(s.X); elemUses > 0 && r != nil && r.Obj != nil && seen[c.names[r.Obj]] {
 		t.fail(s, "loop that assigns to the slice it indexes")
@@ -1013,16 +1155,16 @@ func (c *fctx) rangeStmt(s *ast.RangeStmt, k func() string) string {
 	} else {
 		elem = c.fresh("x_")
 	}
-	params, args, next := lst, paren(xs), tail
+	params, args, next := "("+lst+" : "+xt+")", paren(xs), tail
 	if key != nil && key.Name != "_" {
 		c.elem[key.Obj] = [2]string{xsSrc, elem}
 		if keyUses > elemUses { // the index itself is used
 			i := c.declare(key, "Z")
-			params, args, next = params+" "+i, args+" 0", next+" ("+i+" + 1)"
+			params, args, next = params+" ("+i+" : Z)", args+" 0", next+" ("+i+" + 1)"
 		}
 	}
-	for _, v := range carried {
-		params, args, next = params+" "+v, args+" "+v, next+" "+v
+	for i, v := range carried {
+		params, args, next = params+" ("+v+" : "+carriedT[i]+")", args+" "+v, next+" "+v
 	}
 	k = c.keep(k)
 	ob, on := c.brk, c.cont
